@@ -1,10 +1,10 @@
 (* C19 - v1-to-v2 migration rewrites imports and nothing else.
-   Only statements here; proofs are in proofs/MigrateSpec.v, the model in theories/Migrate.v,
+   Only statements here; proofs are in proofs/MigrateSpec.v and proofs/MigrateSplice.v, the model in theories/Migrate.v,
    the tables in generated/GenMapping.v and generated/GenExports.v (rewritten on every run
    from the running d42 by harness/gen_tables_migrate.py). *)
 Require Import D42.Prelude D42.Migrate.
 Require Import D42Gen.GenMapping D42Gen.GenExports.
-Require Import D42P.MigrateSpec.
+Require Import D42P.MigrateSpec D42P.MigrateSplice.
 From Coq Require Import Permutation.
 Open Scope nat_scope.
 
@@ -92,7 +92,7 @@ Theorem rewrite_twice_stable :
 Proof. exact rewrite_stmt_twice_gen. Qed.
 Print Assumptions rewrite_twice_stable.
 
-(* relative imports and every other statement are expected (and, by the next theorem,
+(* relative imports and every other statement are expected (and, by rewrite_splice_correct,
    found) unchanged *)
 Theorem rewrite_stmt_relative_untouched :
   forall mp l m ns, rewrite_stmt mp (ImportFrom (S l) m ns) = [ImportFrom (S l) m ns].
@@ -100,14 +100,16 @@ Proof. reflexivity. Qed.
 Theorem rewrite_stmt_other_untouched : forall mp i, rewrite_stmt mp (Other i) = [Other i].
 Proof. reflexivity. Qed.
 
-(* ---- 3. the line splice ----------------------------------------------------------------
-   For every list of physical lines whose ast view is [body] (line numbers of ast = indices
-   of splitlines) and in which no physical line is shared between a rewritten import and
-   anything else: the spliced lines read back as the original statements, in order, each
-   absolute from-import replaced by its replacement statements and everything else as is. *)
+(* ---- 3. the line splice (after the repair of F21: the import's own span is spliced) -----
+   For every list of physical lines whose ast view is [body] (positions reported by ast =
+   positions in the list the implementation splits) - NO condition on how lines are shared:
+   the spliced lines read back as the original statements, in order, each absolute from-import
+   replaced by its replacement statements and everything else as is.  [ast_view ls = Some body]
+   only says the input is a sequence of whole statements (each from-import naming >= 1 name)
+   laid out on the lines, which ast.parse guarantees. *)
 Theorem rewrite_splice_correct :
-  forall (mp : mapping_t) (ls : list (list frag)) (body : list (stmt * nat * nat)),
-    ast_view ls = Some body -> line_disjoint ls = true ->
+  forall (mp : mapping_t) (ls : list (list frag)) (body : list (stmt * (nat * nat) * (nat * nat))),
+    ast_view ls = Some body ->
     stmts_of (apply_replacements (replacements mp body) ls)
     = Some (flat_map (rewrite_stmt mp) (map it_stmt body)).
 Proof. exact rewrite_splice_correct_lemma. Qed.
@@ -122,9 +124,10 @@ Theorem rewrite_none_iff :
 Proof. exact rewrite_none_iff_lemma. Qed.
 Print Assumptions rewrite_none_iff.
 
+(* the whole function on any parsable source: never raises, None or the rewritten statements *)
 Theorem rewrite_source_correct :
   forall mp ls body,
-    ast_view ls = Some body -> line_disjoint ls = true ->
+    ast_view ls = Some body ->
     match rewrite_source mp ls with
     | Ok None => forall it, In it body -> rewritten (it_stmt it) = false
     | Ok (Some out) =>
@@ -135,44 +138,45 @@ Theorem rewrite_source_correct :
 Proof. exact rewrite_source_correct_lemma. Qed.
 Print Assumptions rewrite_source_correct.
 
-(* ---- 4. the hypotheses are needed (known findings) -------------------------------------
-   F21: `from district42 import schema; x = 1` - the whole physical line is replaced and
-   `x = 1` (Other 1) is lost. *)
-Theorem rewrite_splice_refuted :
-  ast_view f21_lines = Some f21_body /\
+(* ---- 4. the former counterexamples ----------------------------------------------------
+   F21 `from district42 import schema; x = 1`: the import is replaced in place, `x = 1`
+   (Other 1) stays on the line. *)
+Example f21_now_correct :
   line_disjoint f21_lines = false /\
-  flat_map (rewrite_stmt gen_mapping) (map it_stmt f21_body)
-    = [ImportFrom 0 (Some s_d42) [(s_schema, None)]; Other 1] /\
-  stmts_of (apply_replacements (replacements gen_mapping f21_body) f21_lines)
-    = Some [ImportFrom 0 (Some s_d42) [(s_schema, None)]].
-Proof. exact rewrite_splice_refuted_lemma. Qed.
-Print Assumptions rewrite_splice_refuted.
+  rewrite_source gen_mapping f21_lines
+  = Ok (Some [[Frag (ImportFrom 0 (Some s_d42) [(s_schema, None)]) 0 1; Frag (Other 1) 0 1]]).
+Proof. exact f21_now_correct_lemma. Qed.
 
-(* a form feed (or one of \x0b \x1c \x1d \x1e \x85 U+2028 U+2029) before the import:
-   splitlines() breaks the line there, the tokenizer does not, so ast's line numbers index the
-   wrong element: "\x0cfrom district42 import schema\nx = 1\n" keeps the v1 import and gains
-   a v2 one in front of it. *)
-Theorem rewrite_misaligned_refuted :
-  aligned ff_lines ff_body = false /\
-  line_disjoint ff_lines = true /\
-  match rewrite_imports gen_mapping ff_lines ff_body with
+(* F27 "\x0cfrom district42 import schema\nx = 1\n": the line list is now the tokenizer's
+   (two lines), the form feed is a blank before the import *)
+Example ff_now_correct :
+  rewrite_source gen_mapping ff_lines
+  = Ok (Some [[Frag (ImportFrom 0 (Some s_d42) [(s_schema, None)]) 0 1]; [Frag (Other 1) 0 1]]).
+Proof. exact ff_now_correct_lemma. Qed.
+
+(* the remaining hypothesis is needed in the model: positions that do not index the line list
+   (what str.splitlines() produced before the repair of F27) replace the wrong line.  The
+   harness checks on every input that the implementation's line list is the tokenizer's. *)
+Example misaligned_positions_go_wrong :
+  aligned mis_lines mis_body = false /\
+  match rewrite_imports gen_mapping mis_lines mis_body with
   | Some out => stmts_of out = Some [ImportFrom 0 (Some s_d42) [(s_schema, None)]; f21_import; Other 1]
   | None => False
   end.
-Proof. exact rewrite_misaligned_refuted_lemma. Qed.
-Print Assumptions rewrite_misaligned_refuted.
+Proof. exact misaligned_positions_lemma. Qed.
 
 (* ---- 5. non-vacuity --------------------------------------------------------------------
-   a docstring over two lines, a parenthesised three-line import mixing mapped names of two
-   target modules, an alias and an unmapped name, a relative import, a def over two lines
-   sharing its last line with another statement, a blank line, and a star import:
+   a docstring over two lines; `x = 1; from district42 import (` ... `); y = 2` - a three-line
+   parenthesised import mixing mapped names of two target modules, an alias and an unmapped
+   name, sharing its first line with x = 1 and its last with y = 2; a relative import; a def
+   over two lines sharing its last line with two imports; a blank line; a star import:
 
-     0 """doc                       4 )
-     1 """                          5 from .valera import validate
-     2 from district42 import (     6 def f():
-     3     schema as s, foo,        7     pass; y = 2        (Other 2 ends, Other 3)
-       from_native, optional        8
-                                    9 from district42 import *                         *)
+     0 """doc                               5 from .valera import validate
+     1 """                                  6 def f():
+     2 x = 1; from district42 import (      7     pass; from valera import validate; from district42 import foo
+     3     schema as s, foo,                8
+       from_native, optional                9 from district42 import *
+     4 ); y = 2                                                                         *)
 Definition s_from_native : pystr := [102;114;111;109;95;110;97;116;105;118;101]%N.
 Definition s_optional : pystr := [111;112;116;105;111;110;97;108]%N.
 Definition s_d42_utils : pystr := [100;52;50;46;117;116;105;108;115]%N.
@@ -184,27 +188,30 @@ Definition ex_imp : stmt :=
   ImportFrom 0 (Some s_district42)
              [(s_schema, Some s_s); (s_foo, None); (s_from_native, None); (s_optional, None)].
 Definition ex_rel : stmt := ImportFrom 1 (Some s_valera) [(s_validate, None)].
+Definition ex_val : stmt := ImportFrom 0 (Some s_valera) [(s_validate, None)].
+Definition ex_foo : stmt := ImportFrom 0 (Some s_district42) [(s_foo, None)].
 Definition ex_star : stmt := ImportFrom 0 (Some s_district42) [([42%N], None)].
 Definition ex_lines : list (list frag) :=
   [ [Frag (Other 1) 0 2]; [Frag (Other 1) 1 2];
-    [Frag ex_imp 0 3]; [Frag ex_imp 1 3]; [Frag ex_imp 2 3];
+    [Frag (Other 4) 0 1; Frag ex_imp 0 3]; [Frag ex_imp 1 3]; [Frag ex_imp 2 3; Frag (Other 5) 0 1];
     [Frag ex_rel 0 1];
-    [Frag (Other 2) 0 2]; [Frag (Other 2) 1 2; Frag (Other 3) 0 1];
+    [Frag (Other 2) 0 2]; [Frag (Other 2) 1 2; Frag ex_val 0 1; Frag ex_foo 0 1];
     [];
     [Frag ex_star 0 1] ].
 
 Example hypotheses_satisfiable :
-  exists body,
-    ast_view ex_lines = Some body /\ line_disjoint ex_lines = true /\
-    map it_stmt body = [Other 1; ex_imp; ex_rel; Other 2; Other 3; ex_star] /\
-    rewrite_source gen_mapping ex_lines <> Ok None /\
-    flat_map (rewrite_stmt gen_mapping) (map it_stmt body) =
-      [ Other 1;
+  exists body out,
+    ast_view ex_lines = Some body /\ line_disjoint ex_lines = false /\
+    map it_stmt body = [Other 1; Other 4; ex_imp; Other 5; ex_rel; Other 2; ex_val; ex_foo; ex_star] /\
+    rewrite_source gen_mapping ex_lines = Ok (Some out) /\ length out = 8 /\
+    stmts_of out = Some
+      [ Other 1; Other 4;
         ImportFrom 0 (Some s_d42) [(s_schema, Some s_s); (s_optional, None)];
         ImportFrom 0 (Some s_d42_utils) [(s_from_native, None)];
         ImportFrom 0 (Some s_district42) [(s_foo, None)];
-        ex_rel; Other 2; Other 3; ex_star ].
-Proof. eexists. vm_compute. repeat split. discriminate. Qed.
+        Other 5; ex_rel; Other 2;
+        ImportFrom 0 (Some s_d42) [(s_validate, None)]; ex_foo; ex_star ].
+Proof. eexists. eexists. vm_compute. repeat split. Qed.
 
 Example nothing_to_do :
   rewrite_source gen_mapping [[Frag ex_rel 0 1]; [Frag (Other 2) 0 2]; [Frag (Other 2) 1 2]] = Ok None.
@@ -215,6 +222,11 @@ Example unmapped_module_is_not_none :
   let imp := ImportFrom 0 (Some s_foo) [(s_schema, None)] in
   exists out, rewrite_source gen_mapping [[Frag imp 0 1]] = Ok (Some out) /\ stmts_of out = Some [imp].
 Proof. eexists. vm_compute. split; reflexivity. Qed.
+
+(* a from-import without names is not something ast.parse returns: the model says SyntaxError *)
+Example empty_import_is_not_a_module :
+  rewrite_source gen_mapping [[Frag (ImportFrom 0 (Some s_foo) []) 0 1]] = Raise OtherExn.
+Proof. vm_compute. reflexivity. Qed.
 
 Example table_is_not_empty :
   length (flat_mapping gen_mapping) <> 0 /\
